@@ -7,7 +7,27 @@ import sys_c05
 
 def run(ctx):
     findings = load_findings('C05')
+    translate(ctx, ['rustargs'])
     lean_props(ctx)
+    if cargo_harness(ctx, ['h_rustargs']):
+        w = ctx.work; e = env_offline(); e['VERIF_SEED'] = str(ctx.seed)
+        n = 4000 if ctx.quick() else 150000
+        rc, out, dt = sh([harness_bin('h_rustargs'), 'gen', str(n), f'{w}/rustargs.trace', f'{w}/rustargs.json'], env=e, timeout=7200)
+        if rc != 0: ctx.broken.append('h_rustargs crashed: ' + out[-300:])
+        else:
+            s = json.load(open(f'{w}/rustargs.json'))
+            with open(f'{w}/rustargs.trace') as f: rc, out, dt = sh([MODELD, 'rustargs'], stdin=f, timeout=7200)
+            m = re.search(r'cases: (\d+) mismatches: (\d+)', out)
+            if not m: ctx.broken.append('correspondence rustargs: modeld rustargs failed: ' + out[-300:])
+            else:
+                ctx.cov.setdefault('correspondence', {})['rustargs'] = {'model': 'rustargs', 'cases': int(m.group(1)), 'mismatches': int(m.group(2))}
+                if int(m.group(2)):
+                    ctx.broken.append('correspondence rustargs: the real rust::parse_arguments and RArgsM.parseArguments differ on %s command lines: %s' % (m.group(2), out[:600].replace('\n', ' ')))
+                    open(f'{w}/mismatch-rustargs.txt', 'w').write(out)
+            ctx.evaluations += s['cases']; ctx.distinct_nontrivial += s['distinct_nontrivial']; ctx.samples += s['samples'][:1]; ctx.cov['rustargs_verdicts'] = s['histogram']
+            monitor_failures(ctx, s['monitor_failures'], findings, 'h_rustargs monitor', lambda fl: ('monitor-' + fl['kind'], ['rustc command line(s) as hex lists; the real rust::parse_arguments through hook H7 (harness/src/bin/h_rustargs.rs one <args>)', fl['detail'][:600]], '\n'.join(fl['ops'])))
+            ctx.rules.append('h_rustargs: cargo-like rustc command lines (every table flag in both spellings, shuffled, value alphabets per flag with ordinary values five times in six, a non-UTF-8 byte one time in forty, truncated lines, '
+                             'static libraries and <target>.json probes on a real directory) through the real parser vs RArgsM.parseArguments; non-trivial = distinct accepted (cacheable) command lines')
     if cargo_harness(ctx, ['h_framing']):
         w = ctx.work; e = env_offline(); e['VERIF_SEED'] = str(ctx.seed)
         n = 3000 if ctx.quick() else 200000
@@ -32,8 +52,8 @@ def run(ctx):
         ctx.samples.append(line); monitor_failures(ctx, fails, findings, 'extern alias witness replay', rp)
     ctx.rules.append('framing: random OsString / String / PathBuf values through a write-only Hasher; system: histories over a crate with a module, include_str!, env! / option_env! of a plain, a CARGO_PKG_* and a CARGO_REGISTRIES_* variable (set / changed / unset, scripted first), a cfg feature and an extern rlib — '
                      'edit of each input (must miss), reorder --cfg and --extern/-L (must hit), repeat (must hit); every out-dir compared file by file with a direct rustc run')
-    ctx.assumptions += ["rustc's dep-info lists every source file and env! variable (assumed complete)", 'the component order of the pre-image is hand-read from rust.rs; the byte-exact tie covers the framing, the end-to-end monitor covers sensitivity']
-    ctx.notes.append('not modelled: parse_arguments of rust.rs (cacheable-shape decision) and the outputs computation (rlib/rmeta/dep-info fix-ups); partial')
+    ctx.assumptions += ["rustc's dep-info lists every source file and env! variable (assumed complete)", 'the component order of the pre-image is hand-read from rust.rs; the byte-exact ties cover the framing and the parsed argument list, the end-to-end monitor covers sensitivity']
+    ctx.notes.append('not modelled: the outputs computation of the rust hasher (rlib/rmeta/dep-info fix-ups from `rustc --print file-names`); partial')
 
 def replay(ctx, path):
     print(open(path).read()); return 0
